@@ -39,31 +39,19 @@ Lemma index_term_eq st l ks :
   index_term st (Node l ks) =
   if is_kind "Lifetime" l || is_kind "PredLifetime" l then
     fold_left index_term ks (fst (try_index st PLt (ld l)))
-  else if is_kind "TPath" l then
+  else if is_kind "TPath" l || is_kind "EPath" l then
     match ks with
     | [q; p] =>
         let st1 := index_term st q in
         let st2 :=
-          match first_seg p with
-          | Some (n, bare) =>
-              let (s, ok) := try_index st1 PTy n in
-              if ok then s else if bare then fst (try_index st1 PCt n) else st1
-          | None => st1
-          end in
-        index_term st2 p
-    | _ => fold_left index_term ks st
-    end
-  else if is_kind "EPath" l then
-    match ks with
-    | [q; p] =>
-        let st1 := index_term st q in
-        let st2 :=
-          match first_seg p with
-          | Some (n, _) =>
-              let (s, ok) := try_index st1 PTy n in
-              if ok then s else fst (try_index st1 PCt n)
-          | None => st1
-          end in
+          if no_qself q then
+            match first_seg p with
+            | Some (n, bare) =>
+                let (s, ok) := try_index st1 PTy n in
+                if ok then s else if bare then fst (try_index st1 PCt n) else st1
+            | None => st1
+            end
+          else st1 in
         index_term st2 p
     | _ => fold_left index_term ks st
     end
@@ -79,22 +67,16 @@ Proof.
   rewrite index_term_eq.
   destruct (is_kind "Lifetime" l || is_kind "PredLifetime" l).
   { apply fold_inv; auto. apply try_index_inv; auto. }
-  destruct (is_kind "TPath" l).
+  destruct (is_kind "TPath" l || is_kind "EPath" l).
   { destruct ks as [|q [|p [|]]]; try (apply fold_inv; auto).
     inversion IH as [|? ? Hq IH1]; subst. inversion IH1 as [|? ? Hp _]; subst.
     cbv zeta. apply Hp.
+    destruct (no_qself q); [|apply Hq; auto].
     destruct (first_seg p) as [[n bare]|]; [|apply Hq; auto].
     rewrite (try_index_pair (index_term st q) PTy n).
     destruct (snd (try_index (index_term st q) PTy n)).
     - apply try_index_inv. apply Hq; auto.
     - destruct bare; [apply try_index_inv|]; apply Hq; auto. }
-  destruct (is_kind "EPath" l).
-  { destruct ks as [|q [|p [|]]]; try (apply fold_inv; auto).
-    inversion IH as [|? ? Hq IH1]; subst. inversion IH1 as [|? ? Hp _]; subst.
-    cbv zeta. apply Hp.
-    destruct (first_seg p) as [[n bare]|]; [|apply Hq; auto].
-    rewrite (try_index_pair (index_term st q) PTy n).
-    destruct (snd (try_index (index_term st q) PTy n)); apply try_index_inv; apply Hq; auto. }
   apply fold_inv; auto.
 Qed.
 
